@@ -23,7 +23,7 @@ theorem pp_containsCall (ρ : String → Option Word) (ps imp : List String) :
   | .syscall _ _, hp, _ => by simp [ppE] at hp
   | .sub _ i, hp, h => by simp only [ppE] at hp; simp only [pureE] at h; rw [hp] at h; simp at h
   | .call g args, _, _ => by
-    have : optExpr (annotate ρ (.call g args)) = .call (-1) g (optArgs (annotateL ρ args)) := by
+    have : optExpr (annotate ρ (.call g args)) = .call (sysOf ρ g) g (optArgs (annotateL ρ args)) := by
       simp only [annotate]
       conv => lhs; unfold optExpr
     rw [this]
